@@ -57,6 +57,12 @@ type Spec struct {
 	// its first, as in captures merged from several interfaces or written in
 	// arrival order by the PCAP-over-IP receiver
 	Jumble bool `json:"jumble,omitempty"`
+	// Overlap: at some rotation points the two neighbouring capture files share
+	// a stretch of time — every second packet of the last Overlap packets before
+	// the cut goes to the later file and every second packet of the first
+	// Overlap packets after it to the earlier one (two capture points, or a
+	// receiver writing several sources); each file stays sorted by time
+	Overlap int `json:"overlap,omitempty"`
 	// TickUS > 0: the tap's clock is coarse, timestamps are rounded down to a
 	// multiple of TickUS (many equal timestamps, also across file cuts)
 	TickUS int64 `json:"tick,omitempty"`
@@ -373,6 +379,41 @@ func Build(spec *Spec) *Capture {
 		}
 		capt.Names = append(capt.Names, fmt.Sprintf("%scap%03d.%s", spec.Prefix, fi, ext))
 		start = b
+	}
+	if spec.Overlap > 0 && len(capt.Files) > 1 {
+		files := make([][]Packet, len(capt.Files))
+		for i, f := range capt.Files {
+			files[i] = append([]Packet(nil), f...)
+		}
+		for i := 0; i+1 < len(files); i += 2 {
+			a, b := files[i], files[i+1]
+			w := spec.Overlap
+			var na, nb []Packet
+			for k, p := range a {
+				if k >= len(a)-w && (len(a)-k)%2 == 0 {
+					nb = append(nb, p)
+				} else {
+					na = append(na, p)
+				}
+			}
+			for k, p := range b {
+				if k < w && k%2 == 1 {
+					na = append(na, p)
+				} else {
+					nb = append(nb, p)
+				}
+			}
+			if len(na) == 0 || len(nb) == 0 {
+				continue
+			}
+			less := func(l []Packet) func(x, y int) bool {
+				return func(x, y int) bool { return l[x].TimeUS < l[y].TimeUS }
+			}
+			sort.SliceStable(na, less(na))
+			sort.SliceStable(nb, less(nb))
+			files[i], files[i+1] = na, nb
+		}
+		capt.Files = files
 	}
 	if spec.Jumble {
 		for _, f := range capt.Files {
